@@ -21,7 +21,7 @@ type c05Case struct {
 
 func mkSuite(via string, s shape) (otp.Suite, error) {
 	switch via {
-	case "config":
+	case "config", "config-framed":
 		return s.lib(), nil
 	case "newsuite":
 		return otp.NewSuite(s.lib())
@@ -35,6 +35,9 @@ func mkSuite(via string, s shape) (otp.Suite, error) {
 func ocraGen(c c05Case) (obs, bad string) {
 	key := ocraKeys[c.KeyIdx]
 	sec := ref.B32Encode(key)
+	if c.Via == "config-framed" {
+		c.In, _ = framed(c.In)
+	}
 	var code string
 	var err error
 	p := try(func() {
@@ -167,6 +170,15 @@ func c05(r *ev.Run) {
 						} else if obs != first {
 							r.Fail("ocra-generate", "unselected-field-influence "+sh.sig(), c, first, obs)
 						}
+					}
+				}
+				// the same input with all fields cut out of one frame buffer
+				if fin, _ := framed(plain); true {
+					c := c05Case{"config", sh, kk % len(ocraKeys), fin}
+					obs, bad := ocraGen(c)
+					local++
+					if bad != "" || obs != first {
+						r.Fail("ocra-generate", "framed-input "+sh.sig(), c05Case{"config-framed", sh, kk % len(ocraKeys), plain}, first, obs+" "+bad)
 					}
 				}
 				if ti == 0 {
